@@ -19,7 +19,7 @@
    (same names <-> same id, id 0 <-> no names); the tie checks this on every layout it sees.
    Definitions only. *)
 From Coq Require Import NArith ZArith List Bool.
-From Aelys Require Import Extracted.CallCacheConsts.
+From Aelys Require Import Extracted.CallCacheConsts Extracted.ReplShape.
 Import ListNotations.
 Local Open Scope N_scope.
 
@@ -223,12 +223,19 @@ Definition execute (st : mstate) (L : layout) : mstate :=
   let g := match L with [] => gidx st | _ => load_vec (gmap st) L ++ skipn (length L) (gidx st) end in
   mkM (gmap st) g L (snap st) (mkFrame L true :: frames st) (m_heap st) (m_next st).
 
-(* entering a bytecode function from bytecode *)
+(* the layout switch of a call: the callee's layout is compared with the layout that is LOADED (not with the
+   caller frame's); a callee without globals of its own keeps what is loaded *)
+Definition switch_layout (st : mstate) (L : layout) : mstate :=
+  let against := if CALLS_COMPARE_WITH_LOADED_LAYOUT then cur st
+                 else match frames st with f :: _ => f_lay f | [] => [] end in
+  match L with
+  | [] => st
+  | _ => if layout_eqb L against then st else prepare (sync_loaded st) L
+  end.
+
+(* entering a bytecode function from bytecode: switch, then push the frame *)
 Definition call_enter (st : mstate) (L : layout) : mstate :=
-  let st1 := match L with
-             | [] => st
-             | _ => if layout_eqb L (cur st) then st else prepare (sync_loaded st) L
-             end in
+  let st1 := switch_layout st L in
   with_frames st1 (mkFrame L false :: frames st1).
 
 (* Return *)
@@ -238,7 +245,7 @@ Definition do_return (st : mstate) : mstate :=
   | _ :: rest =>
       let caller := match rest with c :: _ => f_lay c | [] => [] end in
       let needs := match caller with [] => false | _ => negb (layout_eqb caller (cur st)) end in
-      let leaving := match rest with [] => true | _ => false end in
+      let leaving := if RETURN_SYNCS_WHEN_LEAVING then match rest with [] => true | _ => false end else false in
       let st1 := if needs || leaving then sync_loaded st else st in
       let st2 := with_frames st1 rest in
       if needs then prepare st2 caller else st2
@@ -296,7 +303,8 @@ Fixpoint exec_m (fuel : nat) (Lf : layout) (arg : value) (st : mstate) (body : l
                       match lookup fid C with
                       | Some fd =>
                           if negb (fd_arity fd =? nargs) then (st, [], SErr)
-                          else if MAX_FRAMES <=? N.of_nat (length (frames st)) then (st, [], SErr)
+                          (* the order of the checks in call_global*.inc: arity, layout switch, frame limit, push *)
+                          else if MAX_FRAMES <=? N.of_nat (length (frames st)) then (switch_layout st (fd_layout fd), [], SErr)
                           else
                             let '(st1, out1, s1) := exec_m f (fd_layout fd) av (call_enter st (fd_layout fd)) (fd_body fd) in
                             match s1 with
@@ -338,7 +346,7 @@ Definition run_unit (fuel : nat) (vm : mstate) (L : layout) (body : list instr) 
   let '(vm1, out, s) := exec_m fuel L VNull (execute vm L) body in
   match s with
   | SOk => (do_return vm1, out, SOk)
-  | _ => (with_frames vm1 (unwind (frames vm1)), out, s)
+  | _ => ((if RUN_FAST_UNWINDS_ON_ERROR then with_frames vm1 (unwind (frames vm1)) else vm1), out, s)
   end.
 
 Fixpoint load_modules (fuel : nat) (vm : mstate) (ms : list munit) : mstate * list Z * status :=
@@ -349,7 +357,7 @@ Fixpoint load_modules (fuel : nat) (vm : mstate) (ms : list munit) : mstate * li
       match s with
       | SOk =>
           (* vm.sync_globals_to_hashmap(names); register_exports: set_global(alias, get_global(name)) *)
-          let vm2 := sync_loaded vm1 in
+          let vm2 := if MODULE_SYNCS_BEFORE_EXPORTS then sync_loaded vm1 else vm1 in
           let vm3 := fold_left (fun v e => set_name v (fst e) (glookup (gmap v) (snd e))) (mu_exports m) vm2 in
           let '(vm4, out2, s2) := load_modules fuel vm3 r in (vm4, out ++ out2, s2)
       | _ => (vm1, out, s)
@@ -359,17 +367,18 @@ Fixpoint load_modules (fuel : nat) (vm : mstate) (ms : list munit) : mstate * li
 Definition mstep (fuel : nat) (d : dstate) (st : step) : dstate * list Z * status :=
   match st with
   | SInput imports compiles L body newmut imported =>
-      let vm0 := with_frames (d_vm d) [] in                                  (* vm.clear_frames() *)
+      let vm0 := if REPL_CLEARS_FRAMES_FIRST then with_frames (d_vm d) [] else d_vm d in   (* vm.clear_frames() *)
       let '(vm1, out1, s1) := load_modules fuel vm0 imports in                (* load_modules_for_program *)
       match s1 with
       | SOk =>
-          if negb compiles then (mkD vm1 (d_known d) (d_mut d), out1, SErr)   (* type inference / compile_typed returned Err *)
+          if negb compiles then                                               (* type inference / compile_typed returned Err *)
+            (mkD vm1 (if REPL_RECORDS_IMPORTS_AFTER_COMPILE then d_known d else imported ++ d_known d) (d_mut d), out1, SErr)
           else
             let known1 := imported ++ d_known d in                            (* recorded once the input is accepted *)
             let mut1 := newmut ++ d_mut d in                                  (* update_global_mutability *)
             let '(vm2, out2, s2) := run_unit fuel vm1 L body in               (* alloc_function; execute *)
             match s2 with
-            | SOk => (mkD (sync_loaded vm2) (names_of_layout L ++ known1) mut1, out1 ++ out2, SOk)
+            | SOk => (mkD (if REPL_SYNCS_AFTER_SUCCESSFUL_RUN then sync_loaded vm2 else vm2) (names_of_layout L ++ known1) mut1, out1 ++ out2, SOk)
             | _ => (mkD vm2 known1 mut1, out1 ++ out2, s2)
             end
       | _ => (mkD vm1 (d_known d) (d_mut d), out1, s1)
@@ -382,13 +391,14 @@ Definition mstep (fuel : nat) (d : dstate) (st : step) : dstate * list Z * statu
           | Some (OFn fid) =>
               match lookup fid C with
               | Some fd =>
-                  if negb (fd_arity fd =? nargs) then (d, [], SErr) else
+                  if negb (fd_arity fd =? nargs) then                            (* checked before anything is prepared *)
+                    (mkD (if HOST_CALL_CHECKS_ARITY_FIRST then d_vm d else prepare (d_vm d) (fd_layout fd)) (d_known d) (d_mut d), [], SErr) else
                   let vm0 := prepare (d_vm d) (fd_layout fd) in                 (* no copy-back here *)
                   let vm1 := with_frames vm0 (mkFrame (fd_layout fd) true :: frames vm0) in
                   let '(vm2, out, s) := exec_m fuel (fd_layout fd) arg vm1 (fd_body fd) in
                   match s with
                   | SOk => (mkD (do_return vm2) (d_known d) (d_mut d), out, SOk)
-                  | _ => (mkD (with_frames vm2 (unwind (frames vm2))) (d_known d) (d_mut d), out, s)
+                  | _ => (mkD (if RUN_FAST_UNWINDS_ON_ERROR then with_frames vm2 (unwind (frames vm2)) else vm2) (d_known d) (d_mut d), out, s)
                   end
               | None => (d, [], SErr)
               end
@@ -490,3 +500,52 @@ End WithCode.
 Definition minit : mstate := mkM [] [] [] [] [] [] 1.
 Definition dinit : dstate := mkD minit [] [].
 Definition xinit : xstate := mkX (mkS [] [] 1) [] [] [].
+
+(* ---- decidable well-formedness of the inputs (layouts have pairwise distinct names; export aliases) ---- *)
+Fixpoint nodupb (L : layout) : bool :=
+  match L with
+  | [] => true
+  | Some n :: r => negb (in_layout n r) && nodupb r
+  | None :: r => nodupb r
+  end.
+
+Definition wf_munit (m : munit) : bool :=
+  nodupb (mu_layout m)
+  && (match mu_exports m with [] => true | _ => negb (layout_eqb (mu_layout m) []) end)
+  && forallb (fun e => negb (in_layout (fst e) (mu_layout m)) || (fst e =? snd e)) (mu_exports m).
+
+Definition wf_step (st : step) : bool :=
+  match st with
+  | SInput imports _ L _ _ _ => nodupb L && forallb wf_munit imports
+  | SHost _ _ _ => true
+  end.
+
+Definition wf_codeb (C : code) : bool := forallb (fun e => nodupb (fd_layout (snd e))) C.
+
+(* ------------------------------------------------------------------ the tie (tools/props/c14.py)
+   a generated session, as code and steps read off the real compiled units (harness/src/bin/hx_repl.rs):
+   the machine's observations when the session is well formed and specified and the machine agrees with
+   the specification (it must, by session_refines_init: the check guards the translation, not the theorem);
+   otherwise a marker that never equals a real observation *)
+Definition status_eqb (a b : status) : bool :=
+  match a, b with SOk, SOk | SErr, SErr | SFuel, SFuel | SBad, SBad => true | _, _ => false end.
+Fixpoint zlist_eqb (a b : list Z) : bool :=
+  match a, b with [] , [] => true | x :: a', y :: b' => Z.eqb x y && zlist_eqb a' b' | _, _ => false end.
+Fixpoint sobs_eqb (a b : list (list Z * status)) : bool :=
+  match a, b with
+  | [], [] => true
+  | (o1, s1) :: a', (o2, s2) :: b' => zlist_eqb o1 o2 && status_eqb s1 s2 && sobs_eqb a' b'
+  | _, _ => false
+  end.
+Definition tie_fuel : nat := 3000.
+Definition session_tie (q : code * list step) : list (list Z * status) :=
+  let '(C, steps) := q in
+  if negb (wf_codeb C && forallb wf_step steps) then [([(-1)%Z], SBad)]
+  else match xsession C tie_fuel xinit steps with
+       | None => [([(-2)%Z], SBad)]
+       | Some o => let m := msession C tie_fuel dinit steps in
+                   if sobs_eqb o m then m else [([(-3)%Z], SBad)]
+       end.
+(* the machine alone (for sessions the specification leaves open) *)
+Definition session_machine (q : code * list step) : list (list Z * status) :=
+  msession (fst q) tie_fuel dinit (snd q).
